@@ -61,7 +61,12 @@ def run_reads(image, reads, log=None):
         if log is not None:
             log.emit("unblocker", "read", n)
         try:
-            got = u.read() if n is None else u.read(n)
+            if n is None:
+                got = u.read()
+            elif n == "None":
+                got = u.read(None)     # the other way of asking with no size
+            else:
+                got = u.read(n)
         except Exception as ex:
             out.append((n, ("error", type(ex).__name__, str(ex)[:100])))
             break
@@ -75,6 +80,8 @@ def judge_reads(image, reads, log=None):
     pos = 0
     fails = []
     for i, (n, got) in enumerate(res):
+        if n == "None":
+            n = None
         want = stream[pos:] if n is None else stream[pos:pos + n]
         if isinstance(got, tuple):
             fails.append({"oracle": "C05.read.no_exception", "detail": f"read #{i} ({n}) raised {got[1:]}",
@@ -241,8 +248,13 @@ def gen_seeded(seed_i):
         return {"kind": "reader_equiv", "max": maxlen, "records": workload.gen_records(wl, maxlen, 12)}
     blocks = kn.randint(1, 8) if kn.random() < 0.93 else kn.randint(9, 140)
     length = max(0, blocks * 1012 - kn.choice([0, 0, 1, 2, 500, 1011]))
+    reads = workload.gen_read_sizes(wl)
+    if kn.random() < 0.3:
+        reads = ["None" if r is None and kn.random() < 0.5 else r for r in reads]
+    if blocks >= 66 and kn.random() < 0.5:
+        reads = [kn.choice([65535, 65536, 65537, 1012 * 64, 1012 * 65, 1014 * 64])] + reads
     return {"kind": "unblocker_history", "producer": kn.choice(["ref", "ref", "block1014", "block_1014"]),
-            "payload_len": length, "reads": workload.gen_read_sizes(wl)}
+            "payload_len": length, "reads": reads}
 
 
 def _fail(part, fl, scn):
@@ -377,7 +389,7 @@ def run_task(task):
                 fails, f = judge_reads(image, scn["reads"], log=log)
                 part["events"] += f.n_ops
                 c[f"knob:producer={scn['producer']}"] += 1
-                if any(n is None for n in scn["reads"]):
+                if any(n is None or n == "None" for n in scn["reads"]):
                     c["probe:nosize_read_in_history"] += 1
                 part["sigs"].add(sig64("C05", scn["producer"], scn["payload_len"], tuple(scn["reads"])))
                 if log is not None:
@@ -417,7 +429,7 @@ def minimise(scn, oracle):
             cur["producer"] = "ref"
         reads = shrink.ddmin(cur["reads"], lambda r: ok(dict(cur, reads=r)), dl)
         for i in range(len(reads)):
-            if reads[i] is None or dl.over():
+            if reads[i] is None or reads[i] == "None" or dl.over():
                 continue
 
             def t(n, i=i):
